@@ -6,7 +6,14 @@ GEN = ["Const", "Tol"] + _sym.GEN
 LEAN_TARGETS = ["MagpyVerif.Props.C01"] + _sym.LEAN_TARGETS
 PROPS = ["MagpyVerif.Props.C01"] + _sym.PROPS
 NOT_SHOWN = {
- "C01": ["the vertices form of Polyline (current_vertices_field: repeat/reshape/sum over consecutive segments) is not modelled; single segments are proved equal to the Biot-Savart integral",
+ "C01": ["Polyline: proved for ONE segment of the UNMASKED kernel segmentH (off the carrier line). The real code returns 0 for observers within a relative 1e-15 of the line and for "
+         "start == end; that masked row (bhjmSegment) equals segmentH outside those masks (Props/C15 polyline_masks_cover_singular) but the composed statement is not spelled out here; "
+         "the vertices form (current_vertices_field) IS modelled and proved row-wise (Props/C06, poly stream) but not stated as a sum of Biot-Savart integrals",
+         "Sphere: NOT proved equal to its surface-charge integral — only: equals a dipole outside, 2/3 J inside, interface conditions (Props/C13, C14)",
+         "Circle: only observers exactly ON THE AXIS (circle_on_axis_is_biot_savart); Dipole: dipole_is_point_dipole restates the kernel's definition (the formula IS the spec), H only",
+         "all theorems are in exact real arithmetic with log / arctan2 / division totalised (positivity of the Cuboid log arguments is Props/C15); floating-point error of the closed forms "
+         "against 'the numerical accuracy the library documents' is covered by the quadrature oracle only; B variants and poses: via C02 / C03",
+         "the Dipole / Cuboid wrapper theorems are for mu0 := 4*pi*1e-7 (mu0R), not the exported scipy value; the proofs use mu0 != 0 only",
          "Triangle/Tetrahedron/TriangularMesh closed forms = their surface integrals (iterated one-variable integrals; not formalised); Cuboid is proved off the six face planes (on the extended face planes: oracle only)",
          "Circle, Cylinder, CylinderSegment: need Bulirsch cel/el3 (Legendre elliptic integral) theory, absent from Mathlib v4.33",
          "all of the above are checked against numerical quadrature of the defining integral by the oracle (rel. 2e-6 outside, 2e-4 inside)"],
